@@ -161,6 +161,7 @@ pub(crate) fn cell_int<T: IntSrc>(v: T, node: &'static SchemaNode<'static>, kind
 #[kani::stub(alloc::fmt::format, crate::verif::stub_format)]
 fn c02_int_i8_int() {
 	cell_int::<i8>(kani::any(), &nodes::INT, IntKind::Int);
+	kani::cover!(true, "end of harness reached");
 }
 
 // @harness props=C02 also=C01 tier=thorough timeout=900
@@ -170,6 +171,7 @@ fn c02_int_i8_int() {
 #[kani::stub(alloc::fmt::format, crate::verif::stub_format)]
 fn c02_int_i16_int() {
 	cell_int::<i16>(kani::any(), &nodes::INT, IntKind::Int);
+	kani::cover!(true, "end of harness reached");
 }
 
 // @harness props=C02,C01 tier=quick timeout=900
@@ -179,6 +181,7 @@ fn c02_int_i16_int() {
 #[kani::stub(alloc::fmt::format, crate::verif::stub_format)]
 fn c02_int_i32_int() {
 	cell_int::<i32>(kani::any(), &nodes::INT, IntKind::Int);
+	kani::cover!(true, "end of harness reached");
 }
 
 // @harness props=C02 also=C01 tier=quick timeout=900
@@ -188,6 +191,7 @@ fn c02_int_i32_int() {
 #[kani::stub(alloc::fmt::format, crate::verif::stub_format)]
 fn c02_int_i64_int() {
 	cell_int::<i64>(kani::any(), &nodes::INT, IntKind::Int);
+	kani::cover!(true, "end of harness reached");
 }
 
 // @harness props=C02 also=C01 tier=quick timeout=900
@@ -197,6 +201,7 @@ fn c02_int_i64_int() {
 #[kani::stub(alloc::fmt::format, crate::verif::stub_format)]
 fn c02_int_i128_int() {
 	cell_int::<i128>(kani::any(), &nodes::INT, IntKind::Int);
+	kani::cover!(true, "end of harness reached");
 }
 
 // @harness props=C02 also=C01 tier=quick timeout=900
@@ -206,6 +211,7 @@ fn c02_int_i128_int() {
 #[kani::stub(alloc::fmt::format, crate::verif::stub_format)]
 fn c02_int_u8_int() {
 	cell_int::<u8>(kani::any(), &nodes::INT, IntKind::Int);
+	kani::cover!(true, "end of harness reached");
 }
 
 // @harness props=C02 also=C01 tier=thorough timeout=900
@@ -215,6 +221,7 @@ fn c02_int_u8_int() {
 #[kani::stub(alloc::fmt::format, crate::verif::stub_format)]
 fn c02_int_u16_int() {
 	cell_int::<u16>(kani::any(), &nodes::INT, IntKind::Int);
+	kani::cover!(true, "end of harness reached");
 }
 
 // @harness props=C02 also=C01 tier=thorough timeout=900
@@ -224,6 +231,7 @@ fn c02_int_u16_int() {
 #[kani::stub(alloc::fmt::format, crate::verif::stub_format)]
 fn c02_int_u32_int() {
 	cell_int::<u32>(kani::any(), &nodes::INT, IntKind::Int);
+	kani::cover!(true, "end of harness reached");
 }
 
 // @harness props=C02 also=C01 tier=quick timeout=900
@@ -233,6 +241,7 @@ fn c02_int_u32_int() {
 #[kani::stub(alloc::fmt::format, crate::verif::stub_format)]
 fn c02_int_u64_int() {
 	cell_int::<u64>(kani::any(), &nodes::INT, IntKind::Int);
+	kani::cover!(true, "end of harness reached");
 }
 
 // @harness props=C02 also=C01 tier=thorough timeout=900
@@ -242,6 +251,7 @@ fn c02_int_u64_int() {
 #[kani::stub(alloc::fmt::format, crate::verif::stub_format)]
 fn c02_int_u128_int() {
 	cell_int::<u128>(kani::any(), &nodes::INT, IntKind::Int);
+	kani::cover!(true, "end of harness reached");
 }
 
 // @harness props=C02 also=C01 tier=thorough timeout=900
@@ -251,6 +261,7 @@ fn c02_int_u128_int() {
 #[kani::stub(alloc::fmt::format, crate::verif::stub_format)]
 fn c02_int_i8_long() {
 	cell_int::<i8>(kani::any(), &nodes::LONG, IntKind::Long);
+	kani::cover!(true, "end of harness reached");
 }
 
 // @harness props=C02 also=C01 tier=thorough timeout=900
@@ -260,6 +271,7 @@ fn c02_int_i8_long() {
 #[kani::stub(alloc::fmt::format, crate::verif::stub_format)]
 fn c02_int_i16_long() {
 	cell_int::<i16>(kani::any(), &nodes::LONG, IntKind::Long);
+	kani::cover!(true, "end of harness reached");
 }
 
 // @harness props=C02 also=C01 tier=quick timeout=900
@@ -269,6 +281,7 @@ fn c02_int_i16_long() {
 #[kani::stub(alloc::fmt::format, crate::verif::stub_format)]
 fn c02_int_i32_long() {
 	cell_int::<i32>(kani::any(), &nodes::LONG, IntKind::Long);
+	kani::cover!(true, "end of harness reached");
 }
 
 // @harness props=C02,C01 tier=quick timeout=900
@@ -278,6 +291,7 @@ fn c02_int_i32_long() {
 #[kani::stub(alloc::fmt::format, crate::verif::stub_format)]
 fn c02_int_i64_long() {
 	cell_int::<i64>(kani::any(), &nodes::LONG, IntKind::Long);
+	kani::cover!(true, "end of harness reached");
 }
 
 // @harness props=C02 also=C01 tier=quick timeout=900
@@ -287,6 +301,7 @@ fn c02_int_i64_long() {
 #[kani::stub(alloc::fmt::format, crate::verif::stub_format)]
 fn c02_int_i128_long() {
 	cell_int::<i128>(kani::any(), &nodes::LONG, IntKind::Long);
+	kani::cover!(true, "end of harness reached");
 }
 
 // @harness props=C02 also=C01 tier=quick timeout=900
@@ -296,6 +311,7 @@ fn c02_int_i128_long() {
 #[kani::stub(alloc::fmt::format, crate::verif::stub_format)]
 fn c02_int_u8_long() {
 	cell_int::<u8>(kani::any(), &nodes::LONG, IntKind::Long);
+	kani::cover!(true, "end of harness reached");
 }
 
 // @harness props=C02 also=C01 tier=thorough timeout=900
@@ -305,6 +321,7 @@ fn c02_int_u8_long() {
 #[kani::stub(alloc::fmt::format, crate::verif::stub_format)]
 fn c02_int_u16_long() {
 	cell_int::<u16>(kani::any(), &nodes::LONG, IntKind::Long);
+	kani::cover!(true, "end of harness reached");
 }
 
 // @harness props=C02 also=C01 tier=thorough timeout=900
@@ -314,6 +331,7 @@ fn c02_int_u16_long() {
 #[kani::stub(alloc::fmt::format, crate::verif::stub_format)]
 fn c02_int_u32_long() {
 	cell_int::<u32>(kani::any(), &nodes::LONG, IntKind::Long);
+	kani::cover!(true, "end of harness reached");
 }
 
 // @harness props=C02 also=C01 tier=quick timeout=900
@@ -323,6 +341,7 @@ fn c02_int_u32_long() {
 #[kani::stub(alloc::fmt::format, crate::verif::stub_format)]
 fn c02_int_u64_long() {
 	cell_int::<u64>(kani::any(), &nodes::LONG, IntKind::Long);
+	kani::cover!(true, "end of harness reached");
 }
 
 // @harness props=C02 also=C01 tier=thorough timeout=900
@@ -332,6 +351,7 @@ fn c02_int_u64_long() {
 #[kani::stub(alloc::fmt::format, crate::verif::stub_format)]
 fn c02_int_u128_long() {
 	cell_int::<u128>(kani::any(), &nodes::LONG, IntKind::Long);
+	kani::cover!(true, "end of harness reached");
 }
 
 // @harness props=C02 also=C01 tier=thorough timeout=900
@@ -341,6 +361,7 @@ fn c02_int_u128_long() {
 #[kani::stub(alloc::fmt::format, crate::verif::stub_format)]
 fn c02_int_i64_date() {
 	cell_int::<i64>(kani::any(), &nodes::DATE, IntKind::Int);
+	kani::cover!(true, "end of harness reached");
 }
 
 // @harness props=C02 also=C01 tier=thorough timeout=900
@@ -350,6 +371,7 @@ fn c02_int_i64_date() {
 #[kani::stub(alloc::fmt::format, crate::verif::stub_format)]
 fn c02_int_u32_date() {
 	cell_int::<u32>(kani::any(), &nodes::DATE, IntKind::Int);
+	kani::cover!(true, "end of harness reached");
 }
 
 // @harness props=C02 also=C01 tier=thorough timeout=900
@@ -359,6 +381,7 @@ fn c02_int_u32_date() {
 #[kani::stub(alloc::fmt::format, crate::verif::stub_format)]
 fn c02_int_i64_time_millis() {
 	cell_int::<i64>(kani::any(), &nodes::TIME_MILLIS, IntKind::Int);
+	kani::cover!(true, "end of harness reached");
 }
 
 // @harness props=C02 also=C01 tier=thorough timeout=900
@@ -368,6 +391,7 @@ fn c02_int_i64_time_millis() {
 #[kani::stub(alloc::fmt::format, crate::verif::stub_format)]
 fn c02_int_u32_time_millis() {
 	cell_int::<u32>(kani::any(), &nodes::TIME_MILLIS, IntKind::Int);
+	kani::cover!(true, "end of harness reached");
 }
 
 // @harness props=C02 also=C01 tier=thorough timeout=900
@@ -377,6 +401,7 @@ fn c02_int_u32_time_millis() {
 #[kani::stub(alloc::fmt::format, crate::verif::stub_format)]
 fn c02_int_i64_time_micros() {
 	cell_int::<i64>(kani::any(), &nodes::TIME_MICROS, IntKind::Long);
+	kani::cover!(true, "end of harness reached");
 }
 
 // @harness props=C02 also=C01 tier=thorough timeout=900
@@ -386,6 +411,7 @@ fn c02_int_i64_time_micros() {
 #[kani::stub(alloc::fmt::format, crate::verif::stub_format)]
 fn c02_int_u32_time_micros() {
 	cell_int::<u32>(kani::any(), &nodes::TIME_MICROS, IntKind::Long);
+	kani::cover!(true, "end of harness reached");
 }
 
 // @harness props=C02 also=C01 tier=thorough timeout=900
@@ -395,6 +421,7 @@ fn c02_int_u32_time_micros() {
 #[kani::stub(alloc::fmt::format, crate::verif::stub_format)]
 fn c02_int_i64_ts_millis() {
 	cell_int::<i64>(kani::any(), &nodes::TS_MILLIS, IntKind::Long);
+	kani::cover!(true, "end of harness reached");
 }
 
 // @harness props=C02 also=C01 tier=thorough timeout=900
@@ -404,6 +431,7 @@ fn c02_int_i64_ts_millis() {
 #[kani::stub(alloc::fmt::format, crate::verif::stub_format)]
 fn c02_int_u32_ts_millis() {
 	cell_int::<u32>(kani::any(), &nodes::TS_MILLIS, IntKind::Long);
+	kani::cover!(true, "end of harness reached");
 }
 
 // @harness props=C02 also=C01 tier=thorough timeout=900
@@ -413,6 +441,7 @@ fn c02_int_u32_ts_millis() {
 #[kani::stub(alloc::fmt::format, crate::verif::stub_format)]
 fn c02_int_i64_ts_micros() {
 	cell_int::<i64>(kani::any(), &nodes::TS_MICROS, IntKind::Long);
+	kani::cover!(true, "end of harness reached");
 }
 
 // @harness props=C02 also=C01 tier=thorough timeout=900
@@ -422,6 +451,7 @@ fn c02_int_i64_ts_micros() {
 #[kani::stub(alloc::fmt::format, crate::verif::stub_format)]
 fn c02_int_u32_ts_micros() {
 	cell_int::<u32>(kani::any(), &nodes::TS_MICROS, IntKind::Long);
+	kani::cover!(true, "end of harness reached");
 }
 
 // @harness props=C02 also=C01 tier=thorough timeout=900
@@ -432,6 +462,7 @@ fn c02_int_u32_ts_micros() {
 fn c02_int_i8_enum2() {
 	crate::verif::enum_node!(e = "e", None; ["a", "b"]);
 	cell_int::<i8>(kani::any(), e, IntKind::Enum(2));
+	kani::cover!(true, "end of harness reached");
 }
 
 // @harness props=C02 also=C01 tier=thorough timeout=900
@@ -442,6 +473,7 @@ fn c02_int_i8_enum2() {
 fn c02_int_i16_enum2() {
 	crate::verif::enum_node!(e = "e", None; ["a", "b"]);
 	cell_int::<i16>(kani::any(), e, IntKind::Enum(2));
+	kani::cover!(true, "end of harness reached");
 }
 
 // @harness props=C02 also=C01 tier=quick timeout=900
@@ -452,6 +484,7 @@ fn c02_int_i16_enum2() {
 fn c02_int_i32_enum2() {
 	crate::verif::enum_node!(e = "e", None; ["a", "b"]);
 	cell_int::<i32>(kani::any(), e, IntKind::Enum(2));
+	kani::cover!(true, "end of harness reached");
 }
 
 // @harness props=C02,C01 tier=quick timeout=900
@@ -462,6 +495,7 @@ fn c02_int_i32_enum2() {
 fn c02_int_i64_enum2() {
 	crate::verif::enum_node!(e = "e", None; ["a", "b"]);
 	cell_int::<i64>(kani::any(), e, IntKind::Enum(2));
+	kani::cover!(true, "end of harness reached");
 }
 
 // @harness props=C02 also=C01 tier=quick timeout=900
@@ -472,6 +506,7 @@ fn c02_int_i64_enum2() {
 fn c02_int_i128_enum2() {
 	crate::verif::enum_node!(e = "e", None; ["a", "b"]);
 	cell_int::<i128>(kani::any(), e, IntKind::Enum(2));
+	kani::cover!(true, "end of harness reached");
 }
 
 // @harness props=C02 also=C01 tier=quick timeout=900
@@ -482,6 +517,7 @@ fn c02_int_i128_enum2() {
 fn c02_int_u8_enum2() {
 	crate::verif::enum_node!(e = "e", None; ["a", "b"]);
 	cell_int::<u8>(kani::any(), e, IntKind::Enum(2));
+	kani::cover!(true, "end of harness reached");
 }
 
 // @harness props=C02 also=C01 tier=thorough timeout=900
@@ -492,6 +528,7 @@ fn c02_int_u8_enum2() {
 fn c02_int_u16_enum2() {
 	crate::verif::enum_node!(e = "e", None; ["a", "b"]);
 	cell_int::<u16>(kani::any(), e, IntKind::Enum(2));
+	kani::cover!(true, "end of harness reached");
 }
 
 // @harness props=C02 also=C01 tier=thorough timeout=900
@@ -502,6 +539,7 @@ fn c02_int_u16_enum2() {
 fn c02_int_u32_enum2() {
 	crate::verif::enum_node!(e = "e", None; ["a", "b"]);
 	cell_int::<u32>(kani::any(), e, IntKind::Enum(2));
+	kani::cover!(true, "end of harness reached");
 }
 
 // @harness props=C02 also=C01 tier=quick timeout=900
@@ -512,6 +550,7 @@ fn c02_int_u32_enum2() {
 fn c02_int_u64_enum2() {
 	crate::verif::enum_node!(e = "e", None; ["a", "b"]);
 	cell_int::<u64>(kani::any(), e, IntKind::Enum(2));
+	kani::cover!(true, "end of harness reached");
 }
 
 // @harness props=C02 also=C01 tier=thorough timeout=900
@@ -522,6 +561,7 @@ fn c02_int_u64_enum2() {
 fn c02_int_u128_enum2() {
 	crate::verif::enum_node!(e = "e", None; ["a", "b"]);
 	cell_int::<u128>(kani::any(), e, IntKind::Enum(2));
+	kani::cover!(true, "end of harness reached");
 }
 
 // @harness props=C02 also=C01 tier=thorough timeout=900
@@ -532,6 +572,7 @@ fn c02_int_u128_enum2() {
 fn c02_int_i8_decb0() {
 	crate::verif::stack_node!(d = nodes::dec_bytes(0));
 	cell_int::<i8>(kani::any(), d, IntKind::DecBytes(0));
+	kani::cover!(true, "end of harness reached");
 }
 
 // @harness props=C02 also=C01 tier=thorough timeout=900
@@ -542,6 +583,7 @@ fn c02_int_i8_decb0() {
 fn c02_int_i16_decb0() {
 	crate::verif::stack_node!(d = nodes::dec_bytes(0));
 	cell_int::<i16>(kani::any(), d, IntKind::DecBytes(0));
+	kani::cover!(true, "end of harness reached");
 }
 
 // @harness props=C02 also=C01 tier=quick timeout=900
@@ -552,6 +594,7 @@ fn c02_int_i16_decb0() {
 fn c02_int_i32_decb0() {
 	crate::verif::stack_node!(d = nodes::dec_bytes(0));
 	cell_int::<i32>(kani::any(), d, IntKind::DecBytes(0));
+	kani::cover!(true, "end of harness reached");
 }
 
 // @harness props=C02,C01 tier=quick timeout=900
@@ -562,6 +605,7 @@ fn c02_int_i32_decb0() {
 fn c02_int_i64_decb0() {
 	crate::verif::stack_node!(d = nodes::dec_bytes(0));
 	cell_int::<i64>(kani::any(), d, IntKind::DecBytes(0));
+	kani::cover!(true, "end of harness reached");
 }
 
 // @harness props=C02 also=C01 tier=quick timeout=900
@@ -572,6 +616,7 @@ fn c02_int_i64_decb0() {
 fn c02_int_i128_decb0() {
 	crate::verif::stack_node!(d = nodes::dec_bytes(0));
 	cell_int::<i128>(kani::any(), d, IntKind::DecBytes(0));
+	kani::cover!(true, "end of harness reached");
 }
 
 // @harness props=C02 also=C01 tier=quick timeout=900
@@ -582,6 +627,7 @@ fn c02_int_i128_decb0() {
 fn c02_int_u8_decb0() {
 	crate::verif::stack_node!(d = nodes::dec_bytes(0));
 	cell_int::<u8>(kani::any(), d, IntKind::DecBytes(0));
+	kani::cover!(true, "end of harness reached");
 }
 
 // @harness props=C02 also=C01 tier=thorough timeout=900
@@ -592,6 +638,7 @@ fn c02_int_u8_decb0() {
 fn c02_int_u16_decb0() {
 	crate::verif::stack_node!(d = nodes::dec_bytes(0));
 	cell_int::<u16>(kani::any(), d, IntKind::DecBytes(0));
+	kani::cover!(true, "end of harness reached");
 }
 
 // @harness props=C02 also=C01 tier=thorough timeout=900
@@ -602,6 +649,7 @@ fn c02_int_u16_decb0() {
 fn c02_int_u32_decb0() {
 	crate::verif::stack_node!(d = nodes::dec_bytes(0));
 	cell_int::<u32>(kani::any(), d, IntKind::DecBytes(0));
+	kani::cover!(true, "end of harness reached");
 }
 
 // @harness props=C02 also=C01 tier=quick timeout=900
@@ -612,6 +660,7 @@ fn c02_int_u32_decb0() {
 fn c02_int_u64_decb0() {
 	crate::verif::stack_node!(d = nodes::dec_bytes(0));
 	cell_int::<u64>(kani::any(), d, IntKind::DecBytes(0));
+	kani::cover!(true, "end of harness reached");
 }
 
 // @harness props=C02 also=C01 tier=thorough timeout=900
@@ -622,6 +671,7 @@ fn c02_int_u64_decb0() {
 fn c02_int_u128_decb0() {
 	crate::verif::stack_node!(d = nodes::dec_bytes(0));
 	cell_int::<u128>(kani::any(), d, IntKind::DecBytes(0));
+	kani::cover!(true, "end of harness reached");
 }
 
 // @harness props=C02 also=C01 tier=thorough timeout=900
@@ -632,6 +682,7 @@ fn c02_int_u128_decb0() {
 fn c02_int_i8_decb2() {
 	crate::verif::stack_node!(d = nodes::dec_bytes(2));
 	cell_int::<i8>(kani::any(), d, IntKind::DecBytes(2));
+	kani::cover!(true, "end of harness reached");
 }
 
 // @harness props=C02 also=C01 tier=thorough timeout=900
@@ -642,6 +693,7 @@ fn c02_int_i8_decb2() {
 fn c02_int_i16_decb2() {
 	crate::verif::stack_node!(d = nodes::dec_bytes(2));
 	cell_int::<i16>(kani::any(), d, IntKind::DecBytes(2));
+	kani::cover!(true, "end of harness reached");
 }
 
 // @harness props=C02 also=C01 tier=quick timeout=900
@@ -652,6 +704,7 @@ fn c02_int_i16_decb2() {
 fn c02_int_i32_decb2() {
 	crate::verif::stack_node!(d = nodes::dec_bytes(2));
 	cell_int::<i32>(kani::any(), d, IntKind::DecBytes(2));
+	kani::cover!(true, "end of harness reached");
 }
 
 // @harness props=C02 also=C01 tier=quick timeout=900
@@ -662,6 +715,7 @@ fn c02_int_i32_decb2() {
 fn c02_int_i64_decb2() {
 	crate::verif::stack_node!(d = nodes::dec_bytes(2));
 	cell_int::<i64>(kani::any(), d, IntKind::DecBytes(2));
+	kani::cover!(true, "end of harness reached");
 }
 
 // @harness props=C02 also=C01 tier=quick timeout=900
@@ -672,6 +726,7 @@ fn c02_int_i64_decb2() {
 fn c02_int_i128_decb2() {
 	crate::verif::stack_node!(d = nodes::dec_bytes(2));
 	cell_int::<i128>(kani::any(), d, IntKind::DecBytes(2));
+	kani::cover!(true, "end of harness reached");
 }
 
 // @harness props=C02 also=C01 tier=quick timeout=900
@@ -682,6 +737,7 @@ fn c02_int_i128_decb2() {
 fn c02_int_u8_decb2() {
 	crate::verif::stack_node!(d = nodes::dec_bytes(2));
 	cell_int::<u8>(kani::any(), d, IntKind::DecBytes(2));
+	kani::cover!(true, "end of harness reached");
 }
 
 // @harness props=C02 also=C01 tier=thorough timeout=900
@@ -692,6 +748,7 @@ fn c02_int_u8_decb2() {
 fn c02_int_u16_decb2() {
 	crate::verif::stack_node!(d = nodes::dec_bytes(2));
 	cell_int::<u16>(kani::any(), d, IntKind::DecBytes(2));
+	kani::cover!(true, "end of harness reached");
 }
 
 // @harness props=C02 also=C01 tier=thorough timeout=900
@@ -702,6 +759,7 @@ fn c02_int_u16_decb2() {
 fn c02_int_u32_decb2() {
 	crate::verif::stack_node!(d = nodes::dec_bytes(2));
 	cell_int::<u32>(kani::any(), d, IntKind::DecBytes(2));
+	kani::cover!(true, "end of harness reached");
 }
 
 // @harness props=C02 also=C01 tier=quick timeout=900
@@ -712,6 +770,7 @@ fn c02_int_u32_decb2() {
 fn c02_int_u64_decb2() {
 	crate::verif::stack_node!(d = nodes::dec_bytes(2));
 	cell_int::<u64>(kani::any(), d, IntKind::DecBytes(2));
+	kani::cover!(true, "end of harness reached");
 }
 
 // @harness props=C02 also=C01 tier=thorough timeout=900
@@ -722,6 +781,7 @@ fn c02_int_u64_decb2() {
 fn c02_int_u128_decb2() {
 	crate::verif::stack_node!(d = nodes::dec_bytes(2));
 	cell_int::<u128>(kani::any(), d, IntKind::DecBytes(2));
+	kani::cover!(true, "end of harness reached");
 }
 
 // @harness props=C02 also=C01 tier=thorough timeout=900
@@ -732,6 +792,7 @@ fn c02_int_u128_decb2() {
 fn c02_int_i8_decf0_0() {
 	crate::verif::stack_node!(d = nodes::dec_fixed(0, 0));
 	cell_int::<i8>(kani::any(), d, IntKind::DecFixed(0, 0));
+	kani::cover!(true, "end of harness reached");
 }
 
 // @harness props=C02 also=C01 tier=thorough timeout=900
@@ -742,6 +803,7 @@ fn c02_int_i8_decf0_0() {
 fn c02_int_i16_decf0_0() {
 	crate::verif::stack_node!(d = nodes::dec_fixed(0, 0));
 	cell_int::<i16>(kani::any(), d, IntKind::DecFixed(0, 0));
+	kani::cover!(true, "end of harness reached");
 }
 
 // @harness props=C02 also=C01 tier=thorough timeout=900
@@ -752,6 +814,7 @@ fn c02_int_i16_decf0_0() {
 fn c02_int_i32_decf0_0() {
 	crate::verif::stack_node!(d = nodes::dec_fixed(0, 0));
 	cell_int::<i32>(kani::any(), d, IntKind::DecFixed(0, 0));
+	kani::cover!(true, "end of harness reached");
 }
 
 // @harness props=C02 also=C01 tier=thorough timeout=900
@@ -762,6 +825,7 @@ fn c02_int_i32_decf0_0() {
 fn c02_int_i64_decf0_0() {
 	crate::verif::stack_node!(d = nodes::dec_fixed(0, 0));
 	cell_int::<i64>(kani::any(), d, IntKind::DecFixed(0, 0));
+	kani::cover!(true, "end of harness reached");
 }
 
 // @harness props=C02 also=C01 tier=thorough timeout=900
@@ -772,6 +836,7 @@ fn c02_int_i64_decf0_0() {
 fn c02_int_i128_decf0_0() {
 	crate::verif::stack_node!(d = nodes::dec_fixed(0, 0));
 	cell_int::<i128>(kani::any(), d, IntKind::DecFixed(0, 0));
+	kani::cover!(true, "end of harness reached");
 }
 
 // @harness props=C02 also=C01 tier=thorough timeout=900
@@ -782,6 +847,7 @@ fn c02_int_i128_decf0_0() {
 fn c02_int_u8_decf0_0() {
 	crate::verif::stack_node!(d = nodes::dec_fixed(0, 0));
 	cell_int::<u8>(kani::any(), d, IntKind::DecFixed(0, 0));
+	kani::cover!(true, "end of harness reached");
 }
 
 // @harness props=C02 also=C01 tier=thorough timeout=900
@@ -792,6 +858,7 @@ fn c02_int_u8_decf0_0() {
 fn c02_int_u16_decf0_0() {
 	crate::verif::stack_node!(d = nodes::dec_fixed(0, 0));
 	cell_int::<u16>(kani::any(), d, IntKind::DecFixed(0, 0));
+	kani::cover!(true, "end of harness reached");
 }
 
 // @harness props=C02 also=C01 tier=thorough timeout=900
@@ -802,6 +869,7 @@ fn c02_int_u16_decf0_0() {
 fn c02_int_u32_decf0_0() {
 	crate::verif::stack_node!(d = nodes::dec_fixed(0, 0));
 	cell_int::<u32>(kani::any(), d, IntKind::DecFixed(0, 0));
+	kani::cover!(true, "end of harness reached");
 }
 
 // @harness props=C02 also=C01 tier=thorough timeout=900
@@ -812,6 +880,7 @@ fn c02_int_u32_decf0_0() {
 fn c02_int_u64_decf0_0() {
 	crate::verif::stack_node!(d = nodes::dec_fixed(0, 0));
 	cell_int::<u64>(kani::any(), d, IntKind::DecFixed(0, 0));
+	kani::cover!(true, "end of harness reached");
 }
 
 // @harness props=C02 also=C01 tier=thorough timeout=900
@@ -822,6 +891,7 @@ fn c02_int_u64_decf0_0() {
 fn c02_int_u128_decf0_0() {
 	crate::verif::stack_node!(d = nodes::dec_fixed(0, 0));
 	cell_int::<u128>(kani::any(), d, IntKind::DecFixed(0, 0));
+	kani::cover!(true, "end of harness reached");
 }
 
 // @harness props=C02 also=C01 tier=thorough timeout=900
@@ -832,6 +902,7 @@ fn c02_int_u128_decf0_0() {
 fn c02_int_i8_decf1_0() {
 	crate::verif::stack_node!(d = nodes::dec_fixed(1, 0));
 	cell_int::<i8>(kani::any(), d, IntKind::DecFixed(1, 0));
+	kani::cover!(true, "end of harness reached");
 }
 
 // @harness props=C02 also=C01 tier=thorough timeout=900
@@ -842,6 +913,7 @@ fn c02_int_i8_decf1_0() {
 fn c02_int_i16_decf1_0() {
 	crate::verif::stack_node!(d = nodes::dec_fixed(1, 0));
 	cell_int::<i16>(kani::any(), d, IntKind::DecFixed(1, 0));
+	kani::cover!(true, "end of harness reached");
 }
 
 // @harness props=C02 also=C01 tier=quick timeout=900
@@ -852,6 +924,7 @@ fn c02_int_i16_decf1_0() {
 fn c02_int_i32_decf1_0() {
 	crate::verif::stack_node!(d = nodes::dec_fixed(1, 0));
 	cell_int::<i32>(kani::any(), d, IntKind::DecFixed(1, 0));
+	kani::cover!(true, "end of harness reached");
 }
 
 // @harness props=C02,C01 tier=quick timeout=900
@@ -862,6 +935,7 @@ fn c02_int_i32_decf1_0() {
 fn c02_int_i64_decf1_0() {
 	crate::verif::stack_node!(d = nodes::dec_fixed(1, 0));
 	cell_int::<i64>(kani::any(), d, IntKind::DecFixed(1, 0));
+	kani::cover!(true, "end of harness reached");
 }
 
 // @harness props=C02 also=C01 tier=quick timeout=900
@@ -872,6 +946,7 @@ fn c02_int_i64_decf1_0() {
 fn c02_int_i128_decf1_0() {
 	crate::verif::stack_node!(d = nodes::dec_fixed(1, 0));
 	cell_int::<i128>(kani::any(), d, IntKind::DecFixed(1, 0));
+	kani::cover!(true, "end of harness reached");
 }
 
 // @harness props=C02 also=C01 tier=quick timeout=900
@@ -882,6 +957,7 @@ fn c02_int_i128_decf1_0() {
 fn c02_int_u8_decf1_0() {
 	crate::verif::stack_node!(d = nodes::dec_fixed(1, 0));
 	cell_int::<u8>(kani::any(), d, IntKind::DecFixed(1, 0));
+	kani::cover!(true, "end of harness reached");
 }
 
 // @harness props=C02 also=C01 tier=thorough timeout=900
@@ -892,6 +968,7 @@ fn c02_int_u8_decf1_0() {
 fn c02_int_u16_decf1_0() {
 	crate::verif::stack_node!(d = nodes::dec_fixed(1, 0));
 	cell_int::<u16>(kani::any(), d, IntKind::DecFixed(1, 0));
+	kani::cover!(true, "end of harness reached");
 }
 
 // @harness props=C02 also=C01 tier=thorough timeout=900
@@ -902,6 +979,7 @@ fn c02_int_u16_decf1_0() {
 fn c02_int_u32_decf1_0() {
 	crate::verif::stack_node!(d = nodes::dec_fixed(1, 0));
 	cell_int::<u32>(kani::any(), d, IntKind::DecFixed(1, 0));
+	kani::cover!(true, "end of harness reached");
 }
 
 // @harness props=C02 also=C01 tier=quick timeout=900
@@ -912,6 +990,7 @@ fn c02_int_u32_decf1_0() {
 fn c02_int_u64_decf1_0() {
 	crate::verif::stack_node!(d = nodes::dec_fixed(1, 0));
 	cell_int::<u64>(kani::any(), d, IntKind::DecFixed(1, 0));
+	kani::cover!(true, "end of harness reached");
 }
 
 // @harness props=C02 also=C01 tier=thorough timeout=900
@@ -922,6 +1001,7 @@ fn c02_int_u64_decf1_0() {
 fn c02_int_u128_decf1_0() {
 	crate::verif::stack_node!(d = nodes::dec_fixed(1, 0));
 	cell_int::<u128>(kani::any(), d, IntKind::DecFixed(1, 0));
+	kani::cover!(true, "end of harness reached");
 }
 
 // @harness props=C02 also=C01 tier=thorough timeout=900
@@ -932,6 +1012,7 @@ fn c02_int_u128_decf1_0() {
 fn c02_int_i8_decf2_0() {
 	crate::verif::stack_node!(d = nodes::dec_fixed(2, 0));
 	cell_int::<i8>(kani::any(), d, IntKind::DecFixed(2, 0));
+	kani::cover!(true, "end of harness reached");
 }
 
 // @harness props=C02 also=C01 tier=thorough timeout=900
@@ -942,6 +1023,7 @@ fn c02_int_i8_decf2_0() {
 fn c02_int_i16_decf2_0() {
 	crate::verif::stack_node!(d = nodes::dec_fixed(2, 0));
 	cell_int::<i16>(kani::any(), d, IntKind::DecFixed(2, 0));
+	kani::cover!(true, "end of harness reached");
 }
 
 // @harness props=C02 also=C01 tier=thorough timeout=900
@@ -952,6 +1034,7 @@ fn c02_int_i16_decf2_0() {
 fn c02_int_i32_decf2_0() {
 	crate::verif::stack_node!(d = nodes::dec_fixed(2, 0));
 	cell_int::<i32>(kani::any(), d, IntKind::DecFixed(2, 0));
+	kani::cover!(true, "end of harness reached");
 }
 
 // @harness props=C02 also=C01 tier=thorough timeout=900
@@ -962,6 +1045,7 @@ fn c02_int_i32_decf2_0() {
 fn c02_int_i64_decf2_0() {
 	crate::verif::stack_node!(d = nodes::dec_fixed(2, 0));
 	cell_int::<i64>(kani::any(), d, IntKind::DecFixed(2, 0));
+	kani::cover!(true, "end of harness reached");
 }
 
 // @harness props=C02 also=C01 tier=thorough timeout=900
@@ -972,6 +1056,7 @@ fn c02_int_i64_decf2_0() {
 fn c02_int_i128_decf2_0() {
 	crate::verif::stack_node!(d = nodes::dec_fixed(2, 0));
 	cell_int::<i128>(kani::any(), d, IntKind::DecFixed(2, 0));
+	kani::cover!(true, "end of harness reached");
 }
 
 // @harness props=C02 also=C01 tier=thorough timeout=900
@@ -982,6 +1067,7 @@ fn c02_int_i128_decf2_0() {
 fn c02_int_u8_decf2_0() {
 	crate::verif::stack_node!(d = nodes::dec_fixed(2, 0));
 	cell_int::<u8>(kani::any(), d, IntKind::DecFixed(2, 0));
+	kani::cover!(true, "end of harness reached");
 }
 
 // @harness props=C02 also=C01 tier=thorough timeout=900
@@ -992,6 +1078,7 @@ fn c02_int_u8_decf2_0() {
 fn c02_int_u16_decf2_0() {
 	crate::verif::stack_node!(d = nodes::dec_fixed(2, 0));
 	cell_int::<u16>(kani::any(), d, IntKind::DecFixed(2, 0));
+	kani::cover!(true, "end of harness reached");
 }
 
 // @harness props=C02 also=C01 tier=thorough timeout=900
@@ -1002,6 +1089,7 @@ fn c02_int_u16_decf2_0() {
 fn c02_int_u32_decf2_0() {
 	crate::verif::stack_node!(d = nodes::dec_fixed(2, 0));
 	cell_int::<u32>(kani::any(), d, IntKind::DecFixed(2, 0));
+	kani::cover!(true, "end of harness reached");
 }
 
 // @harness props=C02 also=C01 tier=thorough timeout=900
@@ -1012,6 +1100,7 @@ fn c02_int_u32_decf2_0() {
 fn c02_int_u64_decf2_0() {
 	crate::verif::stack_node!(d = nodes::dec_fixed(2, 0));
 	cell_int::<u64>(kani::any(), d, IntKind::DecFixed(2, 0));
+	kani::cover!(true, "end of harness reached");
 }
 
 // @harness props=C02 also=C01 tier=thorough timeout=900
@@ -1022,6 +1111,7 @@ fn c02_int_u64_decf2_0() {
 fn c02_int_u128_decf2_0() {
 	crate::verif::stack_node!(d = nodes::dec_fixed(2, 0));
 	cell_int::<u128>(kani::any(), d, IntKind::DecFixed(2, 0));
+	kani::cover!(true, "end of harness reached");
 }
 
 // @harness props=C02 also=C01 tier=thorough timeout=900
@@ -1032,6 +1122,7 @@ fn c02_int_u128_decf2_0() {
 fn c02_int_i8_decf8_0() {
 	crate::verif::stack_node!(d = nodes::dec_fixed(8, 0));
 	cell_int::<i8>(kani::any(), d, IntKind::DecFixed(8, 0));
+	kani::cover!(true, "end of harness reached");
 }
 
 // @harness props=C02 also=C01 tier=thorough timeout=900
@@ -1042,6 +1133,7 @@ fn c02_int_i8_decf8_0() {
 fn c02_int_i16_decf8_0() {
 	crate::verif::stack_node!(d = nodes::dec_fixed(8, 0));
 	cell_int::<i16>(kani::any(), d, IntKind::DecFixed(8, 0));
+	kani::cover!(true, "end of harness reached");
 }
 
 // @harness props=C02 also=C01 tier=thorough timeout=900
@@ -1052,6 +1144,7 @@ fn c02_int_i16_decf8_0() {
 fn c02_int_i32_decf8_0() {
 	crate::verif::stack_node!(d = nodes::dec_fixed(8, 0));
 	cell_int::<i32>(kani::any(), d, IntKind::DecFixed(8, 0));
+	kani::cover!(true, "end of harness reached");
 }
 
 // @harness props=C02 also=C01 tier=thorough timeout=900
@@ -1062,6 +1155,7 @@ fn c02_int_i32_decf8_0() {
 fn c02_int_i64_decf8_0() {
 	crate::verif::stack_node!(d = nodes::dec_fixed(8, 0));
 	cell_int::<i64>(kani::any(), d, IntKind::DecFixed(8, 0));
+	kani::cover!(true, "end of harness reached");
 }
 
 // @harness props=C02 also=C01 tier=thorough timeout=900
@@ -1072,6 +1166,7 @@ fn c02_int_i64_decf8_0() {
 fn c02_int_i128_decf8_0() {
 	crate::verif::stack_node!(d = nodes::dec_fixed(8, 0));
 	cell_int::<i128>(kani::any(), d, IntKind::DecFixed(8, 0));
+	kani::cover!(true, "end of harness reached");
 }
 
 // @harness props=C02 also=C01 tier=thorough timeout=900
@@ -1082,6 +1177,7 @@ fn c02_int_i128_decf8_0() {
 fn c02_int_u8_decf8_0() {
 	crate::verif::stack_node!(d = nodes::dec_fixed(8, 0));
 	cell_int::<u8>(kani::any(), d, IntKind::DecFixed(8, 0));
+	kani::cover!(true, "end of harness reached");
 }
 
 // @harness props=C02 also=C01 tier=thorough timeout=900
@@ -1092,6 +1188,7 @@ fn c02_int_u8_decf8_0() {
 fn c02_int_u16_decf8_0() {
 	crate::verif::stack_node!(d = nodes::dec_fixed(8, 0));
 	cell_int::<u16>(kani::any(), d, IntKind::DecFixed(8, 0));
+	kani::cover!(true, "end of harness reached");
 }
 
 // @harness props=C02 also=C01 tier=thorough timeout=900
@@ -1102,6 +1199,7 @@ fn c02_int_u16_decf8_0() {
 fn c02_int_u32_decf8_0() {
 	crate::verif::stack_node!(d = nodes::dec_fixed(8, 0));
 	cell_int::<u32>(kani::any(), d, IntKind::DecFixed(8, 0));
+	kani::cover!(true, "end of harness reached");
 }
 
 // @harness props=C02 also=C01 tier=thorough timeout=900
@@ -1112,6 +1210,7 @@ fn c02_int_u32_decf8_0() {
 fn c02_int_u64_decf8_0() {
 	crate::verif::stack_node!(d = nodes::dec_fixed(8, 0));
 	cell_int::<u64>(kani::any(), d, IntKind::DecFixed(8, 0));
+	kani::cover!(true, "end of harness reached");
 }
 
 // @harness props=C02 also=C01 tier=thorough timeout=900
@@ -1122,6 +1221,7 @@ fn c02_int_u64_decf8_0() {
 fn c02_int_u128_decf8_0() {
 	crate::verif::stack_node!(d = nodes::dec_fixed(8, 0));
 	cell_int::<u128>(kani::any(), d, IntKind::DecFixed(8, 0));
+	kani::cover!(true, "end of harness reached");
 }
 
 // @harness props=C02 also=C01 tier=thorough timeout=900
@@ -1132,6 +1232,7 @@ fn c02_int_u128_decf8_0() {
 fn c02_int_i8_decf16_0() {
 	crate::verif::stack_node!(d = nodes::dec_fixed(16, 0));
 	cell_int::<i8>(kani::any(), d, IntKind::DecFixed(16, 0));
+	kani::cover!(true, "end of harness reached");
 }
 
 // @harness props=C02 also=C01 tier=thorough timeout=900
@@ -1142,6 +1243,7 @@ fn c02_int_i8_decf16_0() {
 fn c02_int_i16_decf16_0() {
 	crate::verif::stack_node!(d = nodes::dec_fixed(16, 0));
 	cell_int::<i16>(kani::any(), d, IntKind::DecFixed(16, 0));
+	kani::cover!(true, "end of harness reached");
 }
 
 // @harness props=C02 also=C01 tier=thorough timeout=900
@@ -1152,6 +1254,7 @@ fn c02_int_i16_decf16_0() {
 fn c02_int_i32_decf16_0() {
 	crate::verif::stack_node!(d = nodes::dec_fixed(16, 0));
 	cell_int::<i32>(kani::any(), d, IntKind::DecFixed(16, 0));
+	kani::cover!(true, "end of harness reached");
 }
 
 // @harness props=C02 also=C01 tier=thorough timeout=900
@@ -1162,6 +1265,7 @@ fn c02_int_i32_decf16_0() {
 fn c02_int_i64_decf16_0() {
 	crate::verif::stack_node!(d = nodes::dec_fixed(16, 0));
 	cell_int::<i64>(kani::any(), d, IntKind::DecFixed(16, 0));
+	kani::cover!(true, "end of harness reached");
 }
 
 // @harness props=C02 also=C01 tier=thorough timeout=900
@@ -1172,6 +1276,7 @@ fn c02_int_i64_decf16_0() {
 fn c02_int_i128_decf16_0() {
 	crate::verif::stack_node!(d = nodes::dec_fixed(16, 0));
 	cell_int::<i128>(kani::any(), d, IntKind::DecFixed(16, 0));
+	kani::cover!(true, "end of harness reached");
 }
 
 // @harness props=C02 also=C01 tier=thorough timeout=900
@@ -1182,6 +1287,7 @@ fn c02_int_i128_decf16_0() {
 fn c02_int_u8_decf16_0() {
 	crate::verif::stack_node!(d = nodes::dec_fixed(16, 0));
 	cell_int::<u8>(kani::any(), d, IntKind::DecFixed(16, 0));
+	kani::cover!(true, "end of harness reached");
 }
 
 // @harness props=C02 also=C01 tier=thorough timeout=900
@@ -1192,6 +1298,7 @@ fn c02_int_u8_decf16_0() {
 fn c02_int_u16_decf16_0() {
 	crate::verif::stack_node!(d = nodes::dec_fixed(16, 0));
 	cell_int::<u16>(kani::any(), d, IntKind::DecFixed(16, 0));
+	kani::cover!(true, "end of harness reached");
 }
 
 // @harness props=C02 also=C01 tier=thorough timeout=900
@@ -1202,6 +1309,7 @@ fn c02_int_u16_decf16_0() {
 fn c02_int_u32_decf16_0() {
 	crate::verif::stack_node!(d = nodes::dec_fixed(16, 0));
 	cell_int::<u32>(kani::any(), d, IntKind::DecFixed(16, 0));
+	kani::cover!(true, "end of harness reached");
 }
 
 // @harness props=C02 also=C01 tier=thorough timeout=900
@@ -1212,6 +1320,7 @@ fn c02_int_u32_decf16_0() {
 fn c02_int_u64_decf16_0() {
 	crate::verif::stack_node!(d = nodes::dec_fixed(16, 0));
 	cell_int::<u64>(kani::any(), d, IntKind::DecFixed(16, 0));
+	kani::cover!(true, "end of harness reached");
 }
 
 // @harness props=C02 also=C01 tier=thorough timeout=900
@@ -1222,6 +1331,7 @@ fn c02_int_u64_decf16_0() {
 fn c02_int_u128_decf16_0() {
 	crate::verif::stack_node!(d = nodes::dec_fixed(16, 0));
 	cell_int::<u128>(kani::any(), d, IntKind::DecFixed(16, 0));
+	kani::cover!(true, "end of harness reached");
 }
 
 // @harness props=C02 also=C01 tier=thorough timeout=900
@@ -1232,6 +1342,7 @@ fn c02_int_u128_decf16_0() {
 fn c02_int_i8_decf17_0() {
 	crate::verif::stack_node!(d = nodes::dec_fixed(17, 0));
 	cell_int::<i8>(kani::any(), d, IntKind::DecFixed(17, 0));
+	kani::cover!(true, "end of harness reached");
 }
 
 // @harness props=C02 also=C01 tier=thorough timeout=900
@@ -1242,6 +1353,7 @@ fn c02_int_i8_decf17_0() {
 fn c02_int_i16_decf17_0() {
 	crate::verif::stack_node!(d = nodes::dec_fixed(17, 0));
 	cell_int::<i16>(kani::any(), d, IntKind::DecFixed(17, 0));
+	kani::cover!(true, "end of harness reached");
 }
 
 // @harness props=C02 also=C01 tier=thorough timeout=900
@@ -1252,6 +1364,7 @@ fn c02_int_i16_decf17_0() {
 fn c02_int_i32_decf17_0() {
 	crate::verif::stack_node!(d = nodes::dec_fixed(17, 0));
 	cell_int::<i32>(kani::any(), d, IntKind::DecFixed(17, 0));
+	kani::cover!(true, "end of harness reached");
 }
 
 // @harness props=C02 also=C01 tier=thorough timeout=900
@@ -1262,6 +1375,7 @@ fn c02_int_i32_decf17_0() {
 fn c02_int_i64_decf17_0() {
 	crate::verif::stack_node!(d = nodes::dec_fixed(17, 0));
 	cell_int::<i64>(kani::any(), d, IntKind::DecFixed(17, 0));
+	kani::cover!(true, "end of harness reached");
 }
 
 // @harness props=C02 also=C01 tier=thorough timeout=900
@@ -1272,6 +1386,7 @@ fn c02_int_i64_decf17_0() {
 fn c02_int_i128_decf17_0() {
 	crate::verif::stack_node!(d = nodes::dec_fixed(17, 0));
 	cell_int::<i128>(kani::any(), d, IntKind::DecFixed(17, 0));
+	kani::cover!(true, "end of harness reached");
 }
 
 // @harness props=C02 also=C01 tier=thorough timeout=900
@@ -1282,6 +1397,7 @@ fn c02_int_i128_decf17_0() {
 fn c02_int_u8_decf17_0() {
 	crate::verif::stack_node!(d = nodes::dec_fixed(17, 0));
 	cell_int::<u8>(kani::any(), d, IntKind::DecFixed(17, 0));
+	kani::cover!(true, "end of harness reached");
 }
 
 // @harness props=C02 also=C01 tier=thorough timeout=900
@@ -1292,6 +1408,7 @@ fn c02_int_u8_decf17_0() {
 fn c02_int_u16_decf17_0() {
 	crate::verif::stack_node!(d = nodes::dec_fixed(17, 0));
 	cell_int::<u16>(kani::any(), d, IntKind::DecFixed(17, 0));
+	kani::cover!(true, "end of harness reached");
 }
 
 // @harness props=C02 also=C01 tier=thorough timeout=900
@@ -1302,6 +1419,7 @@ fn c02_int_u16_decf17_0() {
 fn c02_int_u32_decf17_0() {
 	crate::verif::stack_node!(d = nodes::dec_fixed(17, 0));
 	cell_int::<u32>(kani::any(), d, IntKind::DecFixed(17, 0));
+	kani::cover!(true, "end of harness reached");
 }
 
 // @harness props=C02 also=C01 tier=thorough timeout=900
@@ -1312,6 +1430,7 @@ fn c02_int_u32_decf17_0() {
 fn c02_int_u64_decf17_0() {
 	crate::verif::stack_node!(d = nodes::dec_fixed(17, 0));
 	cell_int::<u64>(kani::any(), d, IntKind::DecFixed(17, 0));
+	kani::cover!(true, "end of harness reached");
 }
 
 // @harness props=C02 also=C01 tier=thorough timeout=900
@@ -1322,6 +1441,7 @@ fn c02_int_u64_decf17_0() {
 fn c02_int_u128_decf17_0() {
 	crate::verif::stack_node!(d = nodes::dec_fixed(17, 0));
 	cell_int::<u128>(kani::any(), d, IntKind::DecFixed(17, 0));
+	kani::cover!(true, "end of harness reached");
 }
 
 // @harness props=C02 also=C01 tier=thorough timeout=900
@@ -1332,6 +1452,7 @@ fn c02_int_u128_decf17_0() {
 fn c02_int_i8_decf2_1() {
 	crate::verif::stack_node!(d = nodes::dec_fixed(2, 1));
 	cell_int::<i8>(kani::any(), d, IntKind::DecFixed(2, 1));
+	kani::cover!(true, "end of harness reached");
 }
 
 // @harness props=C02 also=C01 tier=thorough timeout=900
@@ -1342,6 +1463,7 @@ fn c02_int_i8_decf2_1() {
 fn c02_int_i16_decf2_1() {
 	crate::verif::stack_node!(d = nodes::dec_fixed(2, 1));
 	cell_int::<i16>(kani::any(), d, IntKind::DecFixed(2, 1));
+	kani::cover!(true, "end of harness reached");
 }
 
 // @harness props=C02 also=C01 tier=quick timeout=900
@@ -1352,6 +1474,7 @@ fn c02_int_i16_decf2_1() {
 fn c02_int_i32_decf2_1() {
 	crate::verif::stack_node!(d = nodes::dec_fixed(2, 1));
 	cell_int::<i32>(kani::any(), d, IntKind::DecFixed(2, 1));
+	kani::cover!(true, "end of harness reached");
 }
 
 // @harness props=C02 also=C01 tier=quick timeout=900
@@ -1362,6 +1485,7 @@ fn c02_int_i32_decf2_1() {
 fn c02_int_i64_decf2_1() {
 	crate::verif::stack_node!(d = nodes::dec_fixed(2, 1));
 	cell_int::<i64>(kani::any(), d, IntKind::DecFixed(2, 1));
+	kani::cover!(true, "end of harness reached");
 }
 
 // @harness props=C02 also=C01 tier=quick timeout=900
@@ -1372,6 +1496,7 @@ fn c02_int_i64_decf2_1() {
 fn c02_int_i128_decf2_1() {
 	crate::verif::stack_node!(d = nodes::dec_fixed(2, 1));
 	cell_int::<i128>(kani::any(), d, IntKind::DecFixed(2, 1));
+	kani::cover!(true, "end of harness reached");
 }
 
 // @harness props=C02 also=C01 tier=quick timeout=900
@@ -1382,6 +1507,7 @@ fn c02_int_i128_decf2_1() {
 fn c02_int_u8_decf2_1() {
 	crate::verif::stack_node!(d = nodes::dec_fixed(2, 1));
 	cell_int::<u8>(kani::any(), d, IntKind::DecFixed(2, 1));
+	kani::cover!(true, "end of harness reached");
 }
 
 // @harness props=C02 also=C01 tier=thorough timeout=900
@@ -1392,6 +1518,7 @@ fn c02_int_u8_decf2_1() {
 fn c02_int_u16_decf2_1() {
 	crate::verif::stack_node!(d = nodes::dec_fixed(2, 1));
 	cell_int::<u16>(kani::any(), d, IntKind::DecFixed(2, 1));
+	kani::cover!(true, "end of harness reached");
 }
 
 // @harness props=C02 also=C01 tier=thorough timeout=900
@@ -1402,6 +1529,7 @@ fn c02_int_u16_decf2_1() {
 fn c02_int_u32_decf2_1() {
 	crate::verif::stack_node!(d = nodes::dec_fixed(2, 1));
 	cell_int::<u32>(kani::any(), d, IntKind::DecFixed(2, 1));
+	kani::cover!(true, "end of harness reached");
 }
 
 // @harness props=C02 also=C01 tier=quick timeout=900
@@ -1412,6 +1540,7 @@ fn c02_int_u32_decf2_1() {
 fn c02_int_u64_decf2_1() {
 	crate::verif::stack_node!(d = nodes::dec_fixed(2, 1));
 	cell_int::<u64>(kani::any(), d, IntKind::DecFixed(2, 1));
+	kani::cover!(true, "end of harness reached");
 }
 
 // @harness props=C02 also=C01 tier=thorough timeout=900
@@ -1422,6 +1551,7 @@ fn c02_int_u64_decf2_1() {
 fn c02_int_u128_decf2_1() {
 	crate::verif::stack_node!(d = nodes::dec_fixed(2, 1));
 	cell_int::<u128>(kani::any(), d, IntKind::DecFixed(2, 1));
+	kani::cover!(true, "end of harness reached");
 }
 
 // =============================================================================================
@@ -1449,6 +1579,7 @@ fn c02_bytes_to_string() {
 		assert!(!valid, "c02_bytes_to_string: valid UTF-8 bytes rejected for string");
 	}
 	std::mem::forget(r);
+	kani::cover!(true, "end of harness reached");
 }
 
 // @harness props=C02,C01 tier=quick timeout=900
@@ -1481,6 +1612,7 @@ fn c02_bytes_to_bytes_fixed_duration() {
 		assert!(m != 12, "c02_duration: 12 raw bytes rejected");
 	}
 	std::mem::forget(r);
+	kani::cover!(true, "end of harness reached");
 }
 
 pub(crate) struct StrSrc<'a>(pub(crate) &'a str);
@@ -1512,6 +1644,7 @@ fn c02_str_to_enum() {
 	let (r, _) = ser_to::<4, _>(en, &StrSrc("ccc"), false);
 	assert!(r.is_err(), "c02_str_enum: symbol not in the schema accepted");
 	std::mem::forget(r);
+	kani::cover!(true, "end of harness reached");
 }
 
 /// sequence source with independent advertised length
@@ -1578,6 +1711,7 @@ fn c02_seq_to_array() {
 		assert!(adv != 5 && adv > n, "c02_seq_array: conforming sequence rejected");
 	}
 	std::mem::forget(r);
+	kani::cover!(true, "end of harness reached");
 }
 
 /// u8 sequence source (what a transcoder without serde_bytes would present)
@@ -1630,6 +1764,7 @@ fn c02_seq_to_bytes_fixed() {
 	let (r, _) = ser_to::<8, _>(&nodes::BYTES, &U8Seq { items: &vals[..n], advertised }, false);
 	assert!(r.is_err(), "c02_seq_bytes: slow sequence-to-bytes conversion must be refused unless enabled");
 	std::mem::forget(r);
+	kani::cover!(true, "end of harness reached");
 }
 
 // @harness props=C02,C01 tier=quick timeout=900
@@ -1649,6 +1784,7 @@ fn c02_duration() {
 	let (r, out) = ser_to::<16, _>(&nodes::DURATION, &Dur { months: m, days: d, milliseconds: ms }, false);
 	assert!(r.is_ok() && bytes_eq(out.bytes(), want.bytes()), "c02_duration: struct encoding differs");
 	std::mem::forget(r);
+	kani::cover!(true, "end of harness reached");
 }
 
 // @harness props=C02,C01 tier=quick timeout=900
@@ -1681,6 +1817,7 @@ fn c02_fixed_width() {
 	let (r, _) = ser_to::<8, _>(&nodes::DOUBLE, &f, false);
 	assert!(r.is_err(), "c02: f32 presented to double is documented to fail");
 	std::mem::forget(r);
+	kani::cover!(true, "end of harness reached");
 }
 
 // @harness props=C02,C01 tier=quick timeout=900
@@ -1711,6 +1848,7 @@ fn c02_str_presentations() {
 		assert!(n != 2, "c02_str: fixed rejected a str of the right length");
 	}
 	std::mem::forget(r);
+	kani::cover!(true, "end of harness reached");
 }
 
 
@@ -1732,7 +1870,45 @@ fn decimal_serialize_case(node: &'static SchemaNode<'static>, m: i128) -> (Resul
 }
 
 // @harness props=C02 also=C01 tier=quick timeout=1800
-// @bound decimal(bytes, scale 0) and decimal(fixed 2) from a rust_decimal value with every mantissa in -2^40..2^40 at scale 0 (the sign-aware minimal-length truncation): Ok => length-prefixed two's complement that decodes to the same number; does not fit fixed(2) => Err
+// @bound decimal(bytes, scale 0) from a rust_decimal value with every mantissa in -2^40..2^40 at scale 0 (the sign-aware minimal-length truncation): Ok, length-prefixed two's complement that decodes to the same number
+#[kani::proof]
+#[kani::unwind(19)]
+#[kani::stub(alloc::fmt::format, crate::verif::stub_format)]
+fn c02_decimal_serialize_bytes() {
+	crate::verif::stack_node!(db = nodes::dec_bytes(0));
+	let m: i64 = kani::any();
+	kani::assume(m > -(1i64 << 40) && m < (1i64 << 40));
+	let (r, out) = decimal_serialize_case(db, m as i128);
+	kani::cover!(m == 128);
+	kani::cover!(m == -129);
+	assert!(r.is_ok(), "c02_decimal: conforming decimal rejected");
+	let got = out.bytes();
+	assert!(got.len() >= 2 && got[0] as usize == (got.len() - 1) << 1, "c02_decimal: wrong length prefix");
+	assert!(spec::twos_complement(&got[1..]) == m as i128, "c02_decimal: decimal(bytes) payload decodes to a different number");
+	std::mem::forget(r);
+	kani::cover!(true, "end of harness reached");
+}
+
+// @harness props=C02 also=C01 tier=quick timeout=1800
+// @bound decimal(fixed 17) (wider than the 16-byte mantissa) from a rust_decimal value, mantissa in -2^40..2^40: 17 bytes, sign-extended two's complement of the number
+#[kani::proof]
+#[kani::unwind(19)]
+#[kani::stub(alloc::fmt::format, crate::verif::stub_format)]
+fn c02_decimal_serialize_fixed17() {
+	crate::verif::stack_node!(dw = nodes::dec_fixed(17, 0));
+	let m: i64 = kani::any();
+	kani::assume(m > -(1i64 << 40) && m < (1i64 << 40));
+	let (r, out) = decimal_serialize_case(dw, m as i128);
+	kani::cover!(m < 0);
+	assert!(r.is_ok() && out.len == 17, "c02_decimal: decimal(fixed 17) must hold any 96-bit mantissa");
+	let sign = if m < 0 { 0xFFu8 } else { 0x00 };
+	assert!(out.buf[0] == sign && spec::twos_complement(&out.buf[1..17]) == m as i128, "c02_decimal: decimal(fixed 17) is not the sign-extended two's complement of the number");
+	std::mem::forget(r);
+	kani::cover!(true, "end of harness reached");
+}
+
+// @harness props=C02 also=C01 tier=thorough timeout=3600
+// @bound decimal(bytes, scale 0), decimal(fixed 2) and decimal(fixed 17) from a rust_decimal value with every mantissa in -2^40..2^40 at scale 0 (the sign-aware minimal-length truncation): Ok => length-prefixed two's complement that decodes to the same number; does not fit fixed(2) => Err
 #[kani::proof]
 #[kani::unwind(19)]
 #[kani::stub(alloc::fmt::format, crate::verif::stub_format)]
@@ -1757,4 +1933,12 @@ fn c02_decimal_serialize() {
 		assert!(!spec::fits_twos_complement(m as i128, 2), "c02_decimal: number fitting fixed(2) rejected");
 	}
 	std::mem::forget(r);
+	// fixed wider than the 16-byte mantissa: must be sign-extended to the full width
+	crate::verif::stack_node!(dw = nodes::dec_fixed(17, 0));
+	let (r, out) = decimal_serialize_case(dw, m as i128);
+	assert!(r.is_ok() && out.len == 17, "c02_decimal: decimal(fixed 17) must hold any 96-bit mantissa");
+	let sign = if m < 0 { 0xFFu8 } else { 0x00 };
+	assert!(out.buf[0] == sign && spec::twos_complement(&out.buf[1..17]) == m as i128, "c02_decimal: decimal(fixed 17) is not the sign-extended two's complement of the number");
+	std::mem::forget(r);
+	kani::cover!(true, "end of harness reached");
 }
